@@ -140,7 +140,7 @@ type c11Case struct {
 	InnerTree *fexpr `json:"inner_tree,omitempty"`
 }
 
-var c11Stmts = []string{"leaf", "leaf-list", "container", "list", "choice", "case", "anyxml", "uses", "augment", "refine", "rpc", "notification", "action"}
+var c11Stmts = []string{"leaf", "leaf-list", "container", "list", "choice", "case", "anyxml", "uses", "augment", "refine", "rpc", "notification", "action", "action-in-grouping", "notification-in-grouping", "action-in-augment", "notification-in-augment"}
 
 func c11Yang(c c11Case) (string, map[string]string) {
 	q := "\"" + c.Expr + "\""
@@ -188,6 +188,16 @@ func c11Yang(c c11Case) (string, map[string]string) {
 		extra = "notification g { if-feature " + q + "; }"
 	case "action":
 		body = "action g { if-feature " + q + "; }"
+	case "action-in-grouping":
+		extra = "grouping grp { action g { if-feature " + q + "; } leaf gl { type string; } }"
+		body = "uses grp;"
+	case "notification-in-grouping":
+		extra = "grouping grp { notification g { if-feature " + q + "; } leaf gl { type string; } }"
+		body = "uses grp;"
+	case "action-in-augment":
+		extra = "augment \"/top\" { action g { if-feature " + q + "; } }"
+	case "notification-in-augment":
+		extra = "augment \"/top\" { notification g { if-feature " + q + "; } }"
 	}
 	y := "module c11 { yang-version 1.1; namespace \"urn:c11\"; prefix m; " + feats + " " + extra +
 		" container top { leaf before { type string; } " + body + " leaf after { type string; } } }"
@@ -230,8 +240,11 @@ func c11Present(m *meta.Module, stmt string) (present bool, problem string) {
 	case "notification":
 		_, ok := m.Notifications()["g"]
 		return ok, ""
-	case "action":
+	case "action", "action-in-grouping", "action-in-augment":
 		_, ok := top.Actions()["g"]
+		return ok, ""
+	case "notification-in-grouping", "notification-in-augment":
+		_, ok := top.Notifications()["g"]
 		return ok, ""
 	}
 	return findDef(top, "g") != nil, ""
